@@ -48,6 +48,7 @@ Inductive op :=
 | OpDelete (u : Z)
 | OpNotify (f : Z -> outcome)     (* outcome of the call to each url for this event *)
 | OpRestart
+| OpRestartMt (m : Z)             (* a restart with webhook.max_tries set to m: the limit in force from then on *)
 | OpBad.                          (* a request the endpoint rejects before the service is reached: no url, unparsable body *)
 
 (* ---------- which repairs are applied ---------- *)
@@ -159,6 +160,7 @@ Definition step (fx : fixes) (mt : Z) (prod : bool) (now : Z) (o : op) (tb : tab
   | OpDelete u => let '(tb', r) := delete u tb in (tb', r, [])
   | OpNotify f => let '(tb', ps) := notify fx mt prod f now tb in (tb', RespNone, ps)
   | OpRestart => (restart tb, RespNone, [])
+  | OpRestartMt _ => (restart tb, RespNone, [])
   | OpBad => (tb, RespRejected, [])
   end.
 
@@ -167,13 +169,19 @@ Definition stepobs := (resp * list post * list (option view))%type.
 
 Definition universe : list Z := [0; 1; 2; 3].
 
-(* ops are numbered from [now] on (the clock of op number i is i) *)
+(* webhook.max_tries is configuration, read when the service starts: the limit in force after an op *)
+Definition next_mt (mt : Z) (o : op) : Z := match o with OpRestartMt m => m | _ => mt end.
+Definition limit_after (mt : Z) (ops : list op) : Z := fold_left next_mt ops mt.
+(* the op does not change the limit [mt] (a restart with the same value is allowed) *)
+Definition limit_kept (mt : Z) (o : op) : Prop := match o with OpRestartMt m => m = mt | _ => True end.
+
+(* ops are numbered from [now] on (the clock of op number i is i); [mt] is the limit in force at the first op *)
 Fixpoint run_from (fx : fixes) (mt : Z) (prod : bool) (now : Z) (ops : list op) (tb : table) : list stepobs * table :=
   match ops with
   | [] => ([], tb)
   | o :: rest =>
     let '(tb', r, ps) := step fx mt prod now o tb in
-    let '(obs, tbf) := run_from fx mt prod (now + 1) rest tb' in
+    let '(obs, tbf) := run_from fx (next_mt mt o) prod (now + 1) rest tb' in
     ((r, ps, map (fun u => get fx u tb') universe) :: obs, tbf)
   end.
 
@@ -235,6 +243,26 @@ Definition notify_clause (fx : fixes) (mt : Z) (prod : bool) (tb : table) : Prop
     | None => posts_to u ps = [] /\ find_row u tb' = None
     end.
 
+(* the same clause without any assumption on how the count relates to the limit (the limit may have been changed by a
+   restart): a failed delivery switches the webhook off exactly when the new count is at or above the limit in force *)
+Definition notify_clause_any (fx : fixes) (mt : Z) (prod : bool) (tb : table) : Prop :=
+  forall f now u,
+    let tb' := fst (notify fx mt prod f now tb) in
+    let ps := snd (notify fx mt prod f now tb) in
+    match find_row u tb with
+    | Some r =>
+      if r_active r then
+        posts_to u ps = [(u, auth_headers (r_hdr r) (r_tok r))] /\
+        exists r', find_row u tb' = Some r' /\
+          r_url r' = u /\ r_hdr r' = r_hdr r /\ r_tok r' = r_tok r /\
+          r_lstatus r' = SOut (f u) /\ r_lts r' = now /\
+          (is_ok (f u) = true -> r_errors r' = 0 /\ r_active r' = true) /\
+          (is_ok (f u) = false -> r_errors r' = r_errors r + 1 /\
+                                  (r_active r' = false <-> mt <= r_errors r + 1))
+      else posts_to u ps = [] /\ find_row u tb' = Some r
+    | None => posts_to u ps = [] /\ find_row u tb' = None
+    end.
+
 (* C12, register clause *)
 Definition register_clause (fx : fixes) (tb : table) : Prop :=
   forall u k h t,
@@ -270,11 +298,18 @@ Definition row_ok (mt : Z) (r : row) : Prop :=
 Definition table_ok (mt : Z) (tb : table) : Prop :=
   NoDup (map r_url tb) /\ Forall (row_ok mt) tb.
 
-(* the whole statement for a model variant *)
+(* the whole statement for a model variant, one limit for the whole history (restarts keep it) *)
 Definition C12_statement (fx : fixes) : Prop :=
-  forall (mt : Z) (prod : bool) (ops : list op), 1 <= mt ->
+  forall (mt : Z) (prod : bool) (ops : list op), 1 <= mt -> Forall (limit_kept mt) ops ->
     let tb := table_after fx mt prod ops in
     table_ok mt tb /\ notify_clause fx mt prod tb /\ register_clause fx tb /\ delete_clause tb /\ get_clause fx tb.
+
+(* the statement when restarts may change the limit: every history, the limit in force is the one of the last restart *)
+Definition C12_statement_any (fx : fixes) : Prop :=
+  forall (mt : Z) (prod : bool) (ops : list op),
+    let tb := table_after fx mt prod ops in
+    NoDup (map r_url tb) /\ notify_clause_any fx (limit_after mt ops) prod tb /\
+    register_clause fx tb /\ delete_clause tb /\ get_clause fx tb.
 
 (* ---------- the executable spec oracle ----------
    Applied to the OBSERVED behaviour of the implementation, step by step.  Before every step the reference
@@ -382,7 +417,7 @@ Fixpoint check_from (mt : Z) (prod : bool) (now : Z) (ops : list op) (pre : tabl
   match ops, obs with
   | o :: ops', so :: obs' =>
     let '(pre', fs) := check_step mt prod now o pre so in
-    map (fun c => (now, c)) fs ++ check_from mt prod (now + 1) ops' pre' obs'
+    map (fun c => (now, c)) fs ++ check_from (next_mt mt o) prod (now + 1) ops' pre' obs'
   | [], [] => []
   | _, _ => [(now, FResponse)]
   end.
